@@ -5,7 +5,7 @@
 # 3. demo FAILS with the patch             4. demo PASSES without it
 # On success copies the directory to /verif/seeded/<label>/ and writes confirm.json there.
 set -u
-SRC=$(readlink -f "$1"); LABEL=$2; WT=/tmp/confirm
+SRC=$(readlink -f "$1"); LABEL=$2; WT=${CONFIRM_WT:-/tmp/confirm}
 LOG=/tmp/confirm-logs/$LABEL; mkdir -p "$LOG"
 if [ ! -d $WT ]; then git -C /repo worktree add --detach $WT HEAD -q; fi
 git -C $WT checkout -q --detach $(git -C /repo rev-parse HEAD); git -C $WT checkout -- .; git -C $WT clean -fdq -e target
